@@ -17,6 +17,11 @@
 //!            in-zone and out-of-zone server names (optional)
 //!   negative NXDOMAIN with a ~360-octet SOA, QNAME 134..196 octets (512)
 //!   oversize RRsets that cannot fit in 65 535 octets
+//!   size-sweep  (families::size_sweep, shared with C01) answer-less
+//!            responses whose question + OPT + TSIG cross the limits: QNAME
+//!            length x TSIG key-name length (3..=255 octets, unsigned,
+//!            unknown algorithm, correctly signed under a 255-octet key name)
+//!            x advertised size 480..=1300, one octet at a time
 //! x request decorations {no OPT, OPT advertising each of 0, 511, 512, 513,
 //! 1000, 1232, 1233, 4096, 65535} x {unsigned, TSIG-signed}
 //! x server payload sizes {512, 1232, 4096, 65535}; every request is sent
@@ -467,6 +472,51 @@ pub fn run(ctx: Ctx) -> ! {
             }
         }
     });
+    // Size sweep (shared with C01): QNAME length x TSIG key-name length x
+    // advertised size swept one octet at a time, so that header + question +
+    // OPT + TSIG crosses 512 and the negotiated size at every position while
+    // the answer itself is empty (REFUSED / NOTAUTH / FORMERR responses).
+    let sweep = crate::families::size_sweep(ctx.quick());
+    ctx.set_extra("size_sweep_requests", json!(sweep.len()));
+    let mut sitems: Vec<(usize, usize)> = Vec::new();
+    for s in 0..slots.len() {
+        let mut i = 0;
+        while i < sweep.len() {
+            sitems.push((s, i));
+            i += 256;
+        }
+    }
+    drive::rotate(&mut sitems, ctx.seed);
+    ctx.par_for_each(&sitems, |l, (s, start)| {
+        thread_init();
+        let slot = &slots[*s];
+        for r in &sweep[*start..(*start + 256).min(sweep.len())] {
+            let scan = crate::refmodel::scan_request(&r.bytes);
+            let adv = scan.opt_sizes.first().copied();
+            let limit = adv.map(|a| negotiated(a, slot.cfg.edns_size)).unwrap_or(512);
+            let u = slot.exchange(&world, &r.bytes, Tp::Udp).remove(0);
+            let tr = slot.exchange(&world, &r.bytes, Tp::Tcp).remove(0);
+            l.tick();
+            let case = || {
+                json!({"prop": "C04", "scenario": "size-sweep", "zone_tier": tier, "edns_size": slot.cfg.edns_size, "advertised": adv,
+                       "desc": r.desc, "limit": limit, "near_tcp_limit": false, "req": hex(&r.bytes)})
+            };
+            let tlen = tr.as_ref().ok().and_then(|o| o.as_ref()).map(|b| b.len() as i64);
+            match check_pair(limit, false, &u, &tr) {
+                Ok(kind) => {
+                    let dc = tlen.map(|n| delta_class(n - limit as i64)).unwrap_or_else(|| "-".into());
+                    l.outcome(&format!("size-sweep|{}|{}", dc, kind), case);
+                }
+                Err((key_, why)) => {
+                    let mut cs = case();
+                    cs.as_object_mut().unwrap().insert("observed".into(), json!({"why": why, "udp": show(&u), "tcp_len": tlen, "tcp": show(&tr)}));
+                    l.violation(&key_, cs);
+                    l.outcome(&format!("size-sweep|VIOLATION:{}", key_), case);
+                }
+            }
+        }
+    });
+    eprintln!("[C04] size sweep done at {:.1}s", ctx.elapsed_s());
     // Boundary coverage: which (scenario, limit) pairs saw |T| - L at each of
     // -2..+2. The txt scenario must hit every limit value exactly.
     let cov = coverage.lock().unwrap();
